@@ -261,11 +261,18 @@ def api_bank(ctx, bank, rng):
 
 
 def cli_bank(ctx, bank, rng):
-    text = codec.export_encode(bank, v4=rng.random() < 0.3)
-    path = common.write(ctx.path('.export'), text)
+    cont = all(model.gapdeg(model.from_spec(s['root'])) == 0 for s in bank)
+    fmt = rng.choice(['export', 'export', 'tigerxml', 'discobrackets']
+                     + (['brackets'] if cont else []))
+    text = {'export': lambda: codec.export_encode(bank, v4=rng.random() < 0.3),
+            'tigerxml': lambda: codec.tigerxml_encode(bank),
+            'discobrackets': lambda: codec.discobrackets_encode(bank),
+            'brackets': lambda: codec.brackets_encode(bank)}[fmt]()
+    path = common.write(ctx.path('.' + fmt), text)
+    ctx.stratum('cli source ' + fmt)
     for task in ('GapDegree', 'PosTags', 'SentenceCount'):
         rc, out, err = common.cli(['treeanalysis', path, task,
-                                   '--src-format', 'export'])
+                                   '--src-format', fmt])
         ctx.hook('cli.treeanalysis')
         if rc != 0:
             ctx.fail('C16:cli-exit-status',
